@@ -860,6 +860,7 @@ func init() {
 		r.Explanation = "each call runs against a scripted HTTPClient under recover() and a 60 s watchdog; non-2xx => errors.As(*HTTPError) with the status (and the DAV:error condition elements); 2xx-not-207 and uninterpretable bodies (by the independent parser) => error; valid => nil; a resource or required property under a non-success status => error (SyncCollection: 404 => Deleted), an optional property under 404 => zero value"
 		r.Assumptions = []string{"the error type for '2xx but not 207' is not judged", "nesting depth of the oversized XML is 20000 levels (deeper documents risk exhausting the checker's own stack)"}
 		r.Extra["methods"] = len(methods)
+		c14Redirects(r)
 		r.Parallel(len(cases), func(i int, s *engine.Shard) {
 			c := cases[i]
 			m := byName[c.Method]
